@@ -14,7 +14,9 @@ numbering.  `order ps` is the processing order; `Off` are the offsets `merge_mol
 processing order, of what each placement contributes at its offsets.
 
 The matcher is not part of these theorems (it is a reference, `refMatches` = `Iso.allIsosP`,
-see `placements_exact`); modification mappings are not modelled.
+see `placements_exact`).  Modification mappings: last section of this file (step theorems) and
+`VermouthProps/C01_Events.lean` (closed forms); attributes of the particles for any
+keep / must / stash tuples: `VermouthProps/C01_Attr.lean`, `C01_ModAttr.lean`, `C01_AttrLink.lean`.
 -/
 namespace C01
 open C12
@@ -518,14 +520,15 @@ theorem intra_edge_source (m : MolIn) (ps : List Placement) (r : Result) (h : as
 /-! ## the matcher: reference answer -/
 
 /-- `placements_exact`: the reference matcher returns exactly the maps of the nodes of `block_from`
-into the molecule that are injective, satisfy `_old_atomname_match` on every node, and map bonds to
+into the molecule that are injective, satisfy `_old_atomname_match` on every node (and map a node
+with a self-loop to a node with a self-loop and vice versa: `nodePred`), and map bonds to
 bonds and non-bonds to non-bonds (induced) with agreeing "both ends in the same residue" flag
 (`edge_matcher`); each once.  The code's matcher (networkx VF2) is compared with it as a set. -/
 theorem placements_exact (mol : List MNode) (medges : List (Int × Int)) (pat : List MNode)
     (pedges : List (Int × Int)) (hp : (pat.map (·.key)).Nodup) (hm : (mol.map (·.key)).Nodup) :
     (∀ f, f ∈ refMatches mol medges pat pedges ↔
         f.map Prod.fst = pat.map (·.key)
-        ∧ Iso.IsIndIsoP (toGraph mol medges) (toGraph pat pedges) (nodePred mol pat) (Iso.Map.toFun f))
+        ∧ Iso.IsIndIsoP (toGraph mol medges) (toGraph pat pedges) (nodePred mol medges pat pedges) (Iso.Map.toFun f))
     ∧ (refMatches mol medges pat pedges).Nodup := by
   have hk : (toGraph pat pedges).keys = pat.map (·.key) := by simp [toGraph, Iso.Graph.keys]
   have hk2 : (toGraph mol medges).keys = mol.map (·.key) := by simp [toGraph, Iso.Graph.keys]
@@ -533,6 +536,16 @@ theorem placements_exact (mol : List MNode) (medges : List (Int × Int)) (pat : 
   intro f
   unfold refMatches
   rw [Iso.mem_allIsosP_iff _ _ _ (by rw [hk]; exact hp), hk]
+
+/-- `edge_matcher` on a self-loop compares a resid with itself: it never objects (so the `return
+False` under `if neighbor == G1_node` in `semantic_feasibility` is unreachable for resids that are
+equal to themselves; a loop is matched by a loop, `nodePred`) -/
+theorem self_loop_same_residue (ns : List MNode) (u : Int) (h : (ns.find? (fun n => n.key == u)).isSome = true) :
+    sameRes ns u u = 1 := by
+  unfold sameRes
+  cases hf : ns.find? (fun n => n.key == u) with
+  | none => rw [hf] at h; cases h
+  | some a => simp
 
 /-! ## non-vacuity: a concrete instance (sparse keys, a spawned particle, a half weight, an overlap) -/
 
@@ -623,16 +636,25 @@ theorem mod_weights_recorded (st : St) (p : ModPlacement) (he : st.err = none)
           get2 (applyMod st p).molToOut a o = some w ∧ get2 (applyMod st p).outToMol o a = some w) :=
   applyMod_records st p he hok a b ws w ha hb
 
-/-- `overlay_keeps_identity`: applying a modification match never touches an existing particle:
-the particle table only grows at its end (new `PTM_atom` particles), so a particle a modification
-node is laid over keeps its key, name, resid and charge group; overlap and spawned sets are
-unchanged -/
+/-- `overlay_keeps_identity`: applying a modification match never removes or renumbers an existing
+particle: every existing particle keeps its key and position, the table only grows at its end (new
+`PTM_atom` particles); when no node of the modification has a `replace` dictionary touching
+atomname / resid / charge_group the existing particles keep name, resid and charge group as well
+(otherwise exactly the overlaid particles change, see `placeModNodes`); overlap and spawned sets
+are unchanged -/
 theorem overlay_keeps_identity (st : St) (p : ModPlacement) (he : st.err = none)
     (hok : (applyMod st p).err = none) :
-    (∃ extra, (applyMod st p).out.nodes = st.out.nodes ++ extra)
+    (∃ (f : Int × Attrs → Int × Attrs) (extra : List (Int × Attrs)),
+        (∀ q, (f q).1 = q.1) ∧ (applyMod st p).out.nodes = st.out.nodes.map f ++ extra
+        ∧ ((∀ n ∈ p.nodes, n.repl = {}) → (applyMod st p).out.nodes = st.out.nodes ++ extra))
     ∧ (applyMod st p).overlap = st.overlap ∧ (applyMod st p).spawned = st.spawned := by
-  obtain ⟨_, _, _, _, _, _, _, _, h6, h7, h8⟩ := applyMod_spec st p he hok
-  exact ⟨h8, h6, h7⟩
+  obtain ⟨_, _, _, _, _, _, _, _, h6, h7, f, extra, hk, hn, hid⟩ := applyMod_spec st p he hok
+  refine ⟨⟨f, extra, hk, hn, ?_⟩, h6, h7⟩
+  intro hr
+  rw [hn]
+  congr 1
+  have : f = id := funext (hid hr)
+  rw [this, List.map_id]
 
 theorem insertDescM_perm (x : ModPlacement) (l : List ModPlacement) : (insertDescM x l).Perm (x :: l) := by
   induction l with
@@ -701,7 +723,7 @@ def exMol3 : MolIn :=
 def exRes (a b : Int) : Placement := { molToBlock := [(a, [(0, 1)]), (b, [(0, 1)])], block := exB1, refs := [] }
 /-- a modification on the second residue: anchor atom 11 laid over `B1`, PTM atom 12 becomes a new particle `Q1` -/
 def exMod : ModPlacement := ModPlacement.mk [(11, [(0, 1)]), (12, [(1, 1)])]
-  [ModNode.mk 0 { name := some "B1" } false, ModNode.mk 1 { name := some "Q1" } true] [(0, 1)] [] []
+  [ModNode.mk 0 { name := some "B1" } false {}, ModNode.mk 1 { name := some "Q1" } true {}] [(0, 1)] [] []
 
 /-- `residue_offset_restarts`: three residues, the second carries a modification whose mapping
 creates a new particle.  The new particle is the last node when the third block is merged and has
@@ -716,7 +738,7 @@ theorem residue_offset_restarts :
 
 -- hypotheses of the modification theorems on this instance
 example : (applyMod (placeAll [exRes 0 1, exRes 10 11]) exMod).err = none := by decide
-example : overlayTarget (placeAll [exRes 0 1, exRes 10 11]) exMod (ModNode.mk 0 { name := some "B1" } false) = some 2 := by
+example : overlayTarget (placeAll [exRes 0 1, exRes 10 11]) exMod (ModNode.mk 0 { name := some "B1" } false {}) = some 2 := by
   decide
 example : modKey exMod = 12 ∧ minKey (exRes 20 21) = 20 := by decide
 example : cover 3 ["PHOS", "METH"] [["METH", "PHOS"], ["PHOS"], ["METH"]] = some [["METH", "PHOS"]] := by decide
